@@ -6,9 +6,11 @@ import (
 	"reflect"
 	"runtime"
 	"runtime/debug"
+	"sort"
 	"strings"
 
 	be "github.com/echoface/be_indexer"
+	"github.com/echoface/be_indexer/holder/rangeholder"
 	"github.com/echoface/be_indexer/roaringidx"
 )
 
@@ -353,7 +355,10 @@ func init() {
 		extra: func(tier string, seed uint64, outdir string) (map[string]interface{}, []string) {
 			v := extraViolations
 			extraViolations = nil
-			return map[string]interface{}{"assignment_checks": "every assignment deep-copied before Retrieve and compared after", "fresh_index_comparisons": "every 10th step"}, v
+			calls, pv := mixedRangeHoldersHistoryProbe()
+			v = append(v, pv...)
+			return map[string]interface{}{"assignment_checks": "every assignment deep-copied before Retrieve and compared after", "fresh_index_comparisons": "every 10th step",
+				"mixed_range_holder_history_retrievals": calls}, v
 		},
 	}
 }
@@ -377,4 +382,74 @@ func injectRrFailures(r *Rand, c *rCase, i int) {
 		ops = append(ops, op)
 	}
 	c.Ops = ops
+}
+
+// mixedRangeHoldersHistoryProbe (Go side; the end-to-end model has the stock range holder only, DESIGN §10): one index
+// with a stock range field and a field of a range holder registered with EnableFloat2Int = false.  A number TEXT is
+// assigned to one field, then to the other, then to the first again: the first and the third retrieval must agree
+// (ids or error alike), whatever the other holder did with the same text in between.  The texts occur nowhere else
+// in this process, so the first retrieval is the first time the library sees them.
+func mixedRangeHoldersHistoryProbe() (calls int, viol []string) {
+	const name = "verif_ext_range_nf_c10"
+	be.RegisterEntriesHolder(name, func() be.EntriesHolder {
+		o := rangeholder.NewRangeHolderOption()
+		o.EnableFloat2Int = false
+		return rangeholder.NewNumberExtendRangeHolder(rangeholder.WithRangeHolderOption(o))
+	})
+	age, level := fieldName(2), fieldName(4)
+	outcome := func(idx be.BEIndex, a be.Assignments) string {
+		var ids be.DocIDList
+		var err error
+		if safeCall(func() { ids, err = idx.Retrieve(a) }) {
+			return "panic"
+		}
+		calls++
+		if err != nil {
+			return "error"
+		}
+		l := append(be.DocIDList{}, ids...)
+		sort.Slice(l, func(i, j int) bool { return l[i] < l[j] })
+		return fmt.Sprint(l)
+	}
+	for ki, kind := range []string{"kgroups", "compact"} {
+		c := eCase{Kind: kind, Policy: "error"}
+		b := newBuilder(&c)
+		b.ConfigField(age, be.FieldOption{Container: be.HolderNameExtendRange})
+		b.ConfigField(level, be.FieldOption{Container: name})
+		vals := []int64{4237, 4238, 4200, 4239, 4240, 55}
+		for i, n := range vals {
+			d := be.NewDocument(be.DocID(10 + i))
+			d.AddConjunction(be.NewConjunction().In(age, []int64{n}))
+			d2 := be.NewDocument(be.DocID(30 + i))
+			d2.AddConjunction(be.NewConjunction().In(level, []int64{n}))
+			d3 := be.NewDocument(be.DocID(50 + i))
+			d3.AddConjunction(be.NewConjunction().GreatThan(level, n).LessThan(age, n+2))
+			if err := b.AddDocument(d, d2, d3); err != nil {
+				return calls, append(viol, "mixed range holders: AddDocument failed: "+err.Error())
+			}
+		}
+		idx := b.BuildIndex()
+		suffix := []string{"", "0"}[ki] // other spellings per index kind: the first use of a text happens once per process
+		for ti, t := range []string{"4237.0", "4238.00", "42e2", "4239", "4240.5", "5.5e1", "4237.", "+4238"} {
+			t += suffix
+			var v interface{} = t
+			if ti%3 == 2 {
+				v = json.Number(t)
+			}
+			f1, f2 := level, age
+			if ti%2 == 1 {
+				f1, f2 = age, level
+			}
+			o1 := outcome(idx, be.Assignments{f1: v})
+			o2 := outcome(idx, be.Assignments{f2: v})
+			o3 := outcome(idx, be.Assignments{f1: v})
+			o4 := outcome(idx, be.Assignments{f2: v})
+			o5 := outcome(idx, be.Assignments{f1: v, f2: v})
+			o6 := outcome(idx, be.Assignments{f1: v})
+			if o1 != o3 || o1 != o6 || o2 != o4 || o1 == "panic" || o2 == "panic" || o5 == "panic" {
+				viol = append(viol, fmt.Sprintf("history-dependent answer (%s, stock range field next to one without float conversion): %q assigned to %s: %s, after the same text went to %s (%s): %s / %s; %s again: %s", kind, t, f1, o1, f2, o2, o3, o6, f2, o4))
+			}
+		}
+	}
+	return calls, viol
 }
